@@ -155,3 +155,79 @@ Example allocate_checked_nonvacuous :
   let s := mkSlot [(0, 32); (1, 64)] [(0, 64)] 10 0 3 "n" in
   allocate_slot nd s = (mkNode 3 "n" [Some 48; Some 64; None] [Some 64] (Some 10) None, None).
 Proof. vm_compute. reflexivity. Qed.
+
+(* ---- the same as a step of the relation "the node is its initial self plus what is held on it" ---- *)
+
+Lemma allocate_ok_facts nd s nd' :
+  node_bounded nd -> slot_wf s -> allocate_slot nd s = (nd', None) ->
+  nd_index nd = s_nidx s /\ ro_fit (nd_cores nd) (s_cores s) /\ ro_fit (nd_gpus nd) (s_gpus s).
+Proof.
+  intros (Hbc & Hbg & _ & _) (Hwc & Hwg & _ & _) H. unfold allocate_slot in H.
+  destruct (nd_index nd =? s_nidx s) eqn:Ei; [|discriminate]. apply Z.eqb_eq in Ei. cbn [negb] in H.
+  destruct (negb (String.eqb (nd_name nd) (s_name s))); [discriminate|].
+  destruct (check_list (nd_cores nd) (s_cores s)) eqn:Ec; [discriminate|].
+  destruct (check_list (nd_gpus nd) (s_gpus s)) eqn:Eg; [discriminate|].
+  assert (Hz : forall cs, bounded cs -> forall p o, nth_error cs p = Some (Some o) -> o + seen_at (Z.of_nat p) [] <= BUSY).
+  { intros cs Hb p o Hp. cbn [seen_at]. specialize (Hb p o Hp). lia. }
+  split; [exact Ei|]. split.
+  - exact (proj1 (check_from_spec _ _ [] (Hz _ Hbc) Hwc Ec)).
+  - exact (proj1 (check_from_spec _ _ [] (Hz _ Hbg) Hwg Eg)).
+Qed.
+
+Lemma ro_fit_back f a b l : shifted f a b -> ro_fit b l -> ro_fit a l.
+Proof.
+  intros Hs Hf. unfold ro_fit in *. eapply Forall_impl; [|exact Hf]. intros q [Hq [o Ho]]. split; [exact Hq|].
+  destruct (shifted_some _ _ _ _ _ Hs Ho) as [o0 [Ho0 _]]. eauto.
+Qed.
+
+Lemma sum_at_down cs l p : ro_fit cs l -> nth_error cs p = Some None -> sum_at (Z.of_nat p) l = 0.
+Proof.
+  intros Hf Hp. apply sum_at_notin. intros d Hin. unfold ro_fit in Hf. rewrite Forall_forall in Hf.
+  destruct (Hf _ Hin) as [_ [a Ha]]. cbn [fst] in Ha. rewrite Nat2Z.id in Ha. congruence.
+Qed.
+
+Theorem allocate_spec fc fg fl fm n0 n s n' :
+  NodeRel fc fg fl fm n0 n -> slot_wf s -> allocate_slot n s = (n', None) ->
+  NodeRel (fun j => fc j + sum_at j (s_cores s)) (fun j => fg j + sum_at j (s_gpus s))
+          (fl + s_lfs s) (fm + s_mem s) n0 n' /\
+  s_nidx s = nd_index n0 /\ ro_fit (nd_cores n0) (s_cores s) /\ ro_fit (nd_gpus n0) (s_gpus s).
+Proof.
+  intros HR Hw Ha.
+  assert (Hnb : node_bounded n).
+  { unfold node_bounded. split; [exact (nr_bc _ _ _ _ _ _ HR)|]. split; [exact (nr_bg _ _ _ _ _ _ HR)|].
+    pose proof (nr_l _ _ _ _ _ _ HR) as Hl. pose proof (nr_m _ _ _ _ _ _ HR) as Hm. unfold amount_rel in *.
+    split.
+    - destruct (nd_lfs n0); [destruct Hl as [-> ?]; cbn; lia|rewrite Hl; exact I].
+    - destruct (nd_mem n0); [destruct Hm as [-> ?]; cbn; lia|rewrite Hm; exact I]. }
+  destruct (allocate_checked_sound _ _ _ Hnb Hw Ha) as ((Hbc' & Hbg' & Hbl' & Hbm') & Hi & Hn & Hsc & Hsg & Hl & Hm).
+  destruct (allocate_ok_facts _ _ _ Hnb Hw Ha) as (Hid & Hfc & Hfg).
+  pose proof (ro_fit_back _ _ _ _ (nr_c _ _ _ _ _ _ HR) Hfc) as Hfc0.
+  pose proof (ro_fit_back _ _ _ _ (nr_g _ _ _ _ _ _ HR) Hfg) as Hfg0.
+  destruct Hw as (Hwc & Hwg & Hl0 & Hm0).
+  assert (Hnc : Forall (fun p => 0 <= snd p) (s_cores s)) by (eapply Forall_impl; [|exact Hwc]; intros q [_ Hq]; exact Hq).
+  assert (Hng : Forall (fun p => 0 <= snd p) (s_gpus s)) by (eapply Forall_impl; [|exact Hwg]; intros q [_ Hq]; exact Hq).
+  split; [|split; [rewrite <- Hid; exact (nr_idx _ _ _ _ _ _ HR)|split; assumption]].
+  constructor.
+  - rewrite Hi. exact (nr_idx _ _ _ _ _ _ HR).
+  - rewrite Hn. exact (nr_name _ _ _ _ _ _ HR).
+  - exact (shifted_comp _ _ _ _ _ (nr_c _ _ _ _ _ _ HR) Hsc).
+  - exact (shifted_comp _ _ _ _ _ (nr_g _ _ _ _ _ _ HR) Hsg).
+  - pose proof (nr_l _ _ _ _ _ _ HR) as Hr. unfold amount_rel in *. rewrite Hl in *.
+    destruct (nd_lfs n0) as [x|].
+    + destruct Hr as [Hr Hge]. rewrite Hr in *. cbn in Hbl'. split; [f_equal; lia|lia].
+    + rewrite Hr. reflexivity.
+  - pose proof (nr_m _ _ _ _ _ _ HR) as Hr. unfold amount_rel in *. rewrite Hm in *.
+    destruct (nd_mem n0) as [x|].
+    + destruct Hr as [Hr Hge]. rewrite Hr in *. cbn in Hbm'. split; [f_equal; lia|lia].
+    + rewrite Hr. reflexivity.
+  - exact Hbc'.
+  - exact Hbg'.
+  - exact (nr_b0c _ _ _ _ _ _ HR).
+  - exact (nr_b0g _ _ _ _ _ _ HR).
+  - intro j. pose proof (nr_fc _ _ _ _ _ _ HR j). pose proof (sum_at_nonneg _ j Hnc). lia.
+  - intro j. pose proof (nr_fg _ _ _ _ _ _ HR j). pose proof (sum_at_nonneg _ j Hng). lia.
+  - pose proof (nr_fl _ _ _ _ _ _ HR). lia.
+  - pose proof (nr_fm _ _ _ _ _ _ HR). lia.
+  - intros p Hp. rewrite (nr_dc _ _ _ _ _ _ HR p Hp), (sum_at_down _ _ _ Hfc0 Hp). lia.
+  - intros p Hp. rewrite (nr_dg _ _ _ _ _ _ HR p Hp), (sum_at_down _ _ _ Hfg0 Hp). lia.
+Qed.
